@@ -1,3 +1,20 @@
+//! mc-ops: operator-semantics engine (C15, C12, C14, C13).
+
+mod case;
+mod catalogue;
+mod common;
+mod conform;
+mod refops;
+mod rt;
+mod subject;
+
 fn main() {
-    vp_core::machinery_error("engine not built yet");
+    // rten operators use rayon; keep any implicitly created global pool tiny.
+    unsafe { std::env::set_var("RAYON_NUM_THREADS", "1") };
+    let prop = std::env::args().nth(1).unwrap_or_default();
+    match prop.as_str() {
+        "C15" => conform::run_c15(vp_core::Ctx::from_env("C15")),
+        "C12" => conform::run_c12(vp_core::Ctx::from_env("C12")),
+        _ => vp_core::machinery_error("unknown property (mc-ops serves C12 C13 C14 C15)"),
+    }
 }
